@@ -15,7 +15,8 @@ RULE = ('parser/faults: a valid config (bindings, macros, blocks, imports, inclu
         'member) out of 14 fault kinds (bad value, missing value, unbalanced bracket, bad selector, unknown parameter / '
         'configurable / reference, ambiguous selector, denylisted parameter, bad include, bad import, syntactic / '
         'semantic bad block member, tokenizer fault on the following line); observed: exception class, (file, line) '
-        'chain, SyntaxError.lineno, store and provenance afterwards, scope / lock / parse-context depth; the '
+        'chain, SyntaxError.lineno, store, provenance and the recorded imports (gin.config._IMPORTS, as a sorted set of '
+        'module names) afterwards -- also after the failed parse --, scope / lock / parse-context depth; the '
         'independent oracle is a SECOND fresh gin that parses only the statements preceding the fault. '
         'non-trivial = fault at statement position >= 2 inside an included file or inside a block. '
         'import-raises (implementation only): the same include trees with the fault "import of a module that EXISTS and '
@@ -344,10 +345,16 @@ def to_case(texts, entry, as_string, sk=None):
   return {'regs': REGS, 'consts': ['KK'], 'files': files, 'prefixes': [''], 'modules': MODULES, 'calls': calls}
 
 
+def recorded_imports(m):
+  """what gin has RECORDED of the imports that took effect (config._IMPORTS, which heads config_str()), in the form the
+  model observes it (coq/Model/StmtEngine.v imports_out over t_imports): the set of module names, sorted"""
+  return sorted({st.module for st in m.cfg._IMPORTS})  # pylint: disable=protected-access
+
+
 class FaultEngine(Engine):
   name = 'parser-faults'
-  imports = 'Model.SelectorMap Model.Parser Model.Stmt'
-  run_fn = 'Stmt.run'
+  imports = 'Model.SelectorMap Model.Parser Model.Stmt Model.StmtEngine'
+  run_fn = 'run_imports'        # Stmt.run + the recorded imports when the calls are over (also after a failed parse)
 
   def budget(self, tier):
     return 600 if tier == 'quick' else 20000
@@ -364,6 +371,15 @@ class FaultEngine(Engine):
         out.append(dict(base, fault=['inc.gin', 2, kind, 0]))
         out.append(dict(base, fault=['main.gin', 3, kind, 0]))
     out.append(dict(base, fault=None))
+    # imports that have taken effect before the fault (in the failing file itself, and in the file including it):
+    # they stay recorded after the failed parse
+    imp = {'files': {'main.gin': [['import', 'other'], ['bind', '', 'f', 'a', '1'], ['include', 'inc.gin'], ['bind', '', 'f', 'c', '3']],
+                     'inc.gin': [['import', 'pkg.mod'], ['bind', '', 'f', 'b', '2'], ['import', 'other']]},
+           'entry': 'main.gin', 'seed': 3, 'as_string': False}
+    for kind in ('unknown-cfg', 'bad-value', 'bad-import', 'tokerr-next-line'):
+      out.append(dict(imp, fault=['inc.gin', 2, kind, 0]))
+      out.append(dict(imp, fault=['main.gin', 4, kind, 0], as_string=True))
+      out.append(dict(imp, fault=['main.gin', 1, kind, 0]))
     return out
 
   def gen(self, rng, tier):
@@ -440,6 +456,7 @@ class FaultEngine(Engine):
     fails, tags = [], []
     try:
       obs, stable = m.run()
+      recorded = recorded_imports(m)
     finally:
       m.close()
     fault = ab.get('fault')
@@ -472,6 +489,7 @@ class FaultEngine(Engine):
       pm = self.machine(pcase)
       try:
         pobs, _ = pm.run()
+        precorded = recorded_imports(pm)
       finally:
         pm.close()
       if isinstance(pobs[0], T) and pobs[0].tag != 'Ok':
@@ -484,6 +502,9 @@ class FaultEngine(Engine):
                         'preceding statements only has %r' % (kind, fault, norm(obs[-2]), norm(pobs[-2]))))
         elif norm(obs[-1]) != norm(pobs[-1]):
           fails.append(('provenance-differs', 'after fault %r: %r vs prefix-only %r' % (fault, norm(obs[-1]), norm(pobs[-1]))))
+        elif recorded != precorded:
+          fails.append(('prefix-imports-not-recorded', 'after fault %r the recorded imports are %r; a fresh gin given the '
+                        'preceding statements only has recorded %r' % (fault, recorded, precorded)))
         else:
           fails.extend(self.prefix_fails(m, pm, fault))
     else:
@@ -517,7 +538,8 @@ class FaultEngine(Engine):
           if got.get((s, q2, p)) != loc:
             fails.append(('provenance-wrong', '%r: recorded %r, last set at %r' % ((s, q2, p), got.get((s, q2, p)), loc)))
             break
-    return {'obs': obs, 'fails': fails[:3], 'nontrivial': nontrivial, 'tags': tags}
+    # the observation compared with the model: the calls' outcomes, store, provenance and the recorded imports
+    return {'obs': obs + [recorded], 'fails': fails[:3], 'nontrivial': nontrivial, 'tags': tags}
 
 
 class ImportFaultEngine(FaultEngine):
